@@ -102,6 +102,7 @@ class Sim:
         RHS_CACHE.clear()
         self.stale_outputs = set()     # outputs overwritten by set_val since last run
         self.void = False
+        self.resid_current = False
 
     # ------------------------------------------------------------------ helpers
     def _iterative(self):
@@ -244,6 +245,13 @@ class Sim:
             self.st.inc('nan_resets')
         if raised is not None:
             self.clean = False
+        # are the residual vectors those of the current inputs/outputs?  (one-sided differences take them as
+        # their base point): yes after an evaluation that returned normally, no after anything that moves
+        # values without evaluating
+        if raised is not None or fired or kind in ('set_val', 'setup', 'fault', 'final_setup'):
+            self.resid_current = False
+        elif kind in ('run_model', 'apply_nonlinear'):
+            self.resid_current = True
         return res, raised, fired
 
     def op_setup(self, op):
@@ -308,6 +316,13 @@ class Sim:
             self.p.model.run_linearize(driver=self.p.driver)
         else:
             self.p.model.run_linearize()
+
+    def op_apply_nonlinear(self, op):
+        # evaluate the residuals of the current (possibly unconverged) state: transfers the inputs and runs
+        # every component's apply_nonlinear / compute without changing the outputs
+        self.final = True
+        self.p.final_setup()
+        self.p.model.run_apply_nonlinear()
 
     def op_final_setup(self, op):
         self.p.final_setup()
@@ -725,6 +740,9 @@ class Sim:
             if q:
                 x0 = float(self.ref.input_val(q['in'], y)[0])
                 m += float(np.abs(q['coef']).max()) * x0 * x0
+            if c['kind'] == 'imp':
+                u = np.abs(self.ref.val(c['outs'][0]['name'], y))
+                m += float((np.abs(np.array(c['D'], dtype=float)) @ u).max())
             return m + 1.0
         delta = 0.0
         stubs = [c for c in self.world['comps'] if c['kind'] != 'ivc']
@@ -736,8 +754,10 @@ class Sim:
                 delta += 1e-13 * terms(c)
                 continue
             hmin, hmax = np.inf, 0.0
-            for i in c['ins']:
-                x = np.abs(self.ref.input_val(i['name'], y))
+            wrts = [np.abs(self.ref.input_val(i['name'], y)) for i in c['ins']]
+            if c['kind'] == 'imp':
+                wrts.append(np.abs(self.ref.val(c['outs'][0]['name'], y)))
+            for x in wrts:
                 sc = a.get('step_calc', 'abs')
                 if sc == 'abs':
                     h = np.array([a['step']])
